@@ -165,7 +165,7 @@ package vm
 //@   callpre (*vm.VM).executeRaw arg0.maxSteps == maxSteps
 // the block runs on a VM that this goroutine has just made for it: no operand, iterator or other
 // state left behind by an earlier block can leak into its result
-//@   callpre (*vm.VM).executeRaw fresh(arg0) && len(arg0.stack) == 0 && len(arg0.iterators) == 0
+//@   callpremust (*vm.VM).executeRaw fresh(arg0) && len(arg0.stack) == 0 && len(arg0.iterators) == 0
 //@ func NewVM
 //@   ensures result != nil && fresh(result) && len(result.stack) == 0 && result.iterators != nil && fresh(result.iterators) && len(result.iterators) == 0 && result.maxSteps == 0
 
